@@ -11,6 +11,7 @@ for d in $files; do
   grep -q '^+++ b/e2e-checksum/' $d && props="$props C19"
   out=$(tools/detect_seed.sh /verif/$d $props 2>&1)
   n=$(echo "$out" | grep -c VIOLATION)
-  if [ "$n" != 0 ]; then echo "FALSE ALARM $d: $(echo "$out" | grep VIOLATION | head -3 | cut -c1-200)"; rc=1; else echo "silent $d ($(echo $props | wc -w) properties)"; fi
+  if echo "$out" | grep -q "patch failed"; then echo "DOES NOT APPLY $d (re-express it on the current tree)"; rc=1
+  elif [ "$n" != 0 ]; then echo "FALSE ALARM $d: $(echo "$out" | grep VIOLATION | head -3 | cut -c1-200)"; rc=1; else echo "silent $d ($(echo $props | wc -w) properties)"; fi
 done
 exit $rc
